@@ -1,2 +1,72 @@
-(* Props/C09.v — placeholder until Theory/LPolyT.v lands *)
-From Coq Require Import ZArith.
+(* Props/C09.v — parity-constrained Laurent polynomial arithmetic is exact ring arithmetic.
+   Statements only; proofs are in Theory/.  K is any commutative ring, (x, xi) any pair with
+   x * xi = 1; evx K x xi p is the Laurent polynomial stored in p evaluated at w = x. *)
+From Coq Require Import ZArith List Bool.
+From PyqspV Require Import Base.Ops Model.LPolyM Theory.RingK Theory.LPolyT Theory.LPolyCoef.
+Import ListNotations.
+Open Scope Z_scope.
+
+Theorem C09_product (K : CRing) (x xi : K) p q : kmul x xi = k1 -> wf K p -> wf K q ->
+  evx K x xi (lp_mul OpsK p q) = kmul (evx K x xi p) (evx K x xi q).
+Proof. exact (evx_mul K x xi p q). Qed.
+Print Assumptions C09_product.
+
+Theorem C09_sum (K : CRing) (x xi : K) p q r : kmul x xi = k1 -> wf K p -> wf K q ->
+  lp_add OpsK p q = Some r -> evx K x xi r = kadd (evx K x xi p) (evx K x xi q).
+Proof. exact (evx_add K x xi p q r). Qed.
+Print Assumptions C09_sum.
+
+Theorem C09_difference (K : CRing) (x xi : K) p q r : kmul x xi = k1 -> wf K p -> wf K q ->
+  lp_sub OpsK p q = Some r -> evx K x xi r = ksub (evx K x xi p) (evx K x xi q).
+Proof. exact (evx_sub K x xi p q r). Qed.
+Print Assumptions C09_difference.
+
+Theorem C09_scalar (K : CRing) (x xi a : K) p : wf K p ->
+  evx K x xi (lp_scale OpsK a p) = kmul a (evx K x xi p).
+Proof. exact (evx_scale K x xi a p). Qed.
+Print Assumptions C09_scalar.
+
+Theorem C09_negation (K : CRing) (x xi : K) p : wf K p ->
+  evx K x xi (lp_neg OpsK p) = kopp (evx K x xi p).
+Proof. exact (evx_neg K x xi p). Qed.
+Print Assumptions C09_negation.
+
+(* ~p evaluated at 1/w equals p evaluated at w *)
+Theorem C09_inversion (K : CRing) (x xi : K) p : kmul x xi = k1 -> wf K p ->
+  evx K xi x (lp_inv OpsK p) = evx K x xi p.
+Proof. exact (evx_inv K x xi p). Qed.
+Print Assumptions C09_inversion.
+
+Theorem C09_inversion_coefficients {D} (O : Ops D) (p : lpoly D) k : lp_isz p = false -> lp_coefs p <> [] ->
+  lp_get O (lp_inv O p) k = lp_get O p (- k).
+Proof. exact (lp_get_inv O p k). Qed.
+Print Assumptions C09_inversion_coefficients.
+
+(* truncation to any parity-consistent window, for any stored range *)
+Theorem C09_truncate_window {D} (O : Ops D) (p : lpoly D) a b : lp_isz p = false -> lp_coefs p <> [] ->
+  (a - lp_dmin p) mod 2 = 0 -> (b - a) mod 2 = 0 -> a <= b ->
+  exists r, lp_truncate O p a b = Some r /\ lp_dmin r = a /\ lp_isz r = false /\
+    len (lp_coefs r) = (b - a) / 2 + 1 /\
+    forall k, lp_get O r k = if (a <=? k) && (k <=? b) then lp_get O p k else d0 O.
+Proof. exact (lp_truncate_spec O p a b). Qed.
+Print Assumptions C09_truncate_window.
+
+(* the zero polynomial evaluates to 0, is neutral for + and absorbing for *, on either side *)
+Theorem C09_zero_evaluates_to_0 (K : CRing) (x xi : K) d : evx K x xi (lzero K d) = k0.
+Proof. exact (ev_zero K x xi d). Qed.
+Print Assumptions C09_zero_evaluates_to_0.
+
+Theorem C09_zero_neutral (K : CRing) (x xi : K) d p : kmul x xi = k1 -> wf K p ->
+  (exists r, lp_add OpsK (lzero K d) p = Some r) /\ (exists r, lp_add OpsK p (lzero K d) = Some r) /\
+  (forall r, lp_add OpsK (lzero K d) p = Some r -> evx K x xi r = evx K x xi p) /\
+  (forall r, lp_add OpsK p (lzero K d) = Some r -> evx K x xi r = evx K x xi p).
+Proof.
+  exact (fun Hx Wp => conj (add_zero_total_l K d p) (conj (add_zero_total_r K d p)
+         (conj (fun r => add_zero_l K x xi d p r Hx Wp) (fun r => add_zero_r K x xi d p r Hx Wp)))).
+Qed.
+Print Assumptions C09_zero_neutral.
+
+Theorem C09_zero_absorbing (K : CRing) (x xi : K) d p :
+  evx K x xi (lp_mul OpsK (lzero K d) p) = k0 /\ evx K x xi (lp_mul OpsK p (lzero K d)) = k0.
+Proof. exact (conj (mul_zero_l K x xi d p) (mul_zero_r K x xi d p)). Qed.
+Print Assumptions C09_zero_absorbing.
